@@ -240,7 +240,18 @@ def build(spec):
             A = (A + A.conj().T) / 2
         else:
             V = np.eye(n) + 0.3 * rn(n, n)
-            A = V @ np.diag(d) @ np.linalg.inv(V)
+            D = np.diag(d).astype(complex if cplx else float)
+            if spec.get("cspec"):
+                # a genuinely complex spectrum: conjugate pairs (2x2 rotation-like blocks) for a real matrix, arbitrary
+                # imaginary parts for a complex one; real parts stay k +- 0.2, so the pairs are well separated
+                if cplx:
+                    D = np.diag(d + 1j * rng.uniform(0.3, 1.5, n) * rng.choice([-1, 1], n))
+                else:
+                    for i0 in range(0, n - 1, 2):
+                        bi = float(rng.uniform(0.3, 1.5))
+                        D[i0 + 1, i0 + 1] = D[i0, i0]
+                        D[i0, i0 + 1], D[i0 + 1, i0] = bi, -bi
+            A = V @ D @ np.linalg.inv(V)
         B = None
         if gen:
             C = rn(n, n)
@@ -252,8 +263,24 @@ def build(spec):
                 Lc = np.linalg.cholesky(B)
                 A = Lc @ A @ Lc.conj().T
                 A = (A + A.conj().T) / 2
+    if spec.get("special") == "mirror":
+        # small perfectly symmetric systems: antisymmetric modes whose entries sum to EXACTLY zero (sign rule at mean 0)
+        mblocks = int(spec.get("m", 1))
+        A = np.kron(np.diag([1.0, 4.0, 9.0][:mblocks]), np.array([[2.0, -1.0], [-1.0, 2.0]]))
+        n = A.shape[0]
+        cplx, herm = False, True
+        B = 2.0 * np.eye(n) if gen else None
+    if spec.get("units"):
+        # the same pencil in other units (exact powers of two): eigenvalues scale by 2^(ea - eb), nothing else changes
+        ea, eb = spec["units"]
+        A = A * 2.0 ** ea
+        if gen:
+            B = B * 2.0 ** eb
+    c.units = spec.get("units")
     c.A, c.B, c.n, c.cplx, c.herm, c.gen = A, (B if gen else None), n, cplx, herm, gen
     c.sorter = spec.get("sorter", str(rng.choice(list(SORTERS))))
+    if spec.get("units") or spec.get("cspec"):
+        c.sorter = "default" if spec.get("cspec") else str(rng.choice(["default", "descending"]))   # (abs / target keys are in units of 1)
     c.userherm = spec.get("userherm", None if rng.random() < 0.7 else herm)
     if c.stream == "sparse":
         c.nmodes = spec.get("nmodes", [None, 1, 2, 3, 4][int(rng.integers(0, 5))])
@@ -498,7 +525,7 @@ def oracle(c, out):
     A, B = c.A, c.B
     Bm = np.eye(c.n) if B is None else B
     W, Q = out["W"], out["Q"]
-    scale = max(1.0, float(np.abs(A).max()))
+    scale = max(1.0, float(np.abs(A).max())) if not getattr(c, "units", None) else float(np.abs(A).max())
     if Q.shape[0] != c.n or Q.shape[1] != W.size:
         return f"shapes: W {W.shape}, Q {Q.shape}"
     if c.stream == "dense" and W.size != c.n:
@@ -765,6 +792,20 @@ def specs(ctx):
                         out.append({"stream": "dense", "seed": seed(), "cplx": cplx, "herm": herm, "gen": gen, "sorter": sorter})
     for _ in range(20 if ctx.quick else 300):
         out.append({"stream": "dense", "seed": seed()})
+    for mblk in (1, 2, 3):
+        for gen in (False, True):
+            out.append({"stream": "dense", "seed": seed(), "special": "mirror", "m": mblk, "gen": gen, "cplx": False, "herm": True,
+                        "sorter": "default"})
+    # general matrices with a complex spectrum, and pencils in very small / very large units
+    for cplx in (False, True):
+        for gen in (False, True):
+            for _ in range(2 if ctx.quick else 12):
+                out.append({"stream": "dense", "seed": seed(), "cplx": cplx, "herm": False, "gen": gen, "cspec": True})
+                out.append({"stream": "dense", "seed": seed(), "cplx": cplx, "herm": False, "gen": gen, "cspec": True,
+                            "units": [R.choice([-33, -40, 0, 30]), R.choice([0, 33, 40])]})
+            for herm in (False, True):
+                out.append({"stream": "dense", "seed": seed(), "cplx": cplx, "herm": herm, "gen": gen,
+                            "units": [R.choice([-33, -40, 30]), R.choice([0, 33])]})
     for cplx in (False, True):
         for herm in (False, True):
             for gen in (False, True):
